@@ -63,6 +63,8 @@ def truth(e, fam, defs, mod, bad=None):
         if any(v is True for v in vs):
             return True
         return False if all(v is False for v in vs) else None
+    if isinstance(e, ast.Constant):
+        return bool(e.value)
     if isinstance(e, ast.Name):
         d = single_def(defs, e.id)
         if d is not None and d[0] == 'expr':
@@ -185,13 +187,20 @@ def r06_2(run):
                 if p.exit == 'raise':
                     continue
                 hit = [pk for c, pk in ps if pk is not None and any(n in pk_nodes[id(pk)] for n in p.nodes())]
-                reached.append(hit)
-            for hit in reached:
+                # names bound differently per family leg (if v6: fmt = ... else: fmt = ...): what holds on this path
+                pdefs = dict(defs)
+                for n_, lab_ in p.steps:
+                    if n_.kind == 'stmt' and isinstance(n_.ast, ast.Assign) and lab_ != 'exc':
+                        for t_ in n_.ast.targets:
+                            if isinstance(t_, ast.Name):
+                                pdefs[t_.id] = [('expr', n_.ast.value)]
+                reached.append((hit, pdefs))
+            for hit, pdefs in reached:
                 run.ob('R06.2', u, u.node, '%s/%s: exactly one request is packed' % (req, fam), len(hit) == 1, slot='one-pack:%s:%s' % (req, fam),
                        message='%s packs %d requests for a %s target' % (fname, len(hit), fam))
                 for pk in hit:
                     npack += 1
-                    check_pack(run, u, req, fam, pk, defs, mod, bad_cls)
+                    check_pack(run, u, req, fam, pk, pdefs, mod, bad_cls)
         seen = set()
         for e, o in bad_cls:
             if id(e) in seen:
@@ -284,7 +293,7 @@ def check_pack(run, u, req, fam, pk, defs, mod, bad):
             okf = False
             why = src(enc)
             if isinstance(enc, ast.Call) and dotted(enc.func) in ('inet_pton', 'socket.inet_pton') and enc.args:
-                af = enc.args[0]
+                af = _resolve_name(defs, enc.args[0])
                 if isinstance(af, ast.IfExp):
                     t = truth(af.test, fam, defs, mod, bad)
                     af = None if t is None else (af.body if t else af.orelse)
@@ -327,9 +336,11 @@ def r06_3(run):
             okm = False
             for tn, lab in gm:
                 op, cmpv = tn.ast.ops[0], const(tn.ast.comparators[0])
-                if isinstance(op, ast.In) and lab == 'T' and isinstance(cmpv, list) and 0 in cmpv and set(cmpv) <= set([0, 2]):
+                if isinstance(cmpv, tuple):
+                    cmpv = list(cmpv)
+                if isinstance(op, (ast.In, ast.NotIn)) and (lab == 'T') == isinstance(op, ast.In) and isinstance(cmpv, list) and 0 in cmpv and set(cmpv) <= set([0, 2]):
                     okm = True
-                if isinstance(op, ast.Eq) and lab == 'T' and cmpv == 0:
+                if isinstance(op, (ast.Eq, ast.NotEq)) and (lab == 'T') == isinstance(op, ast.Eq) and cmpv == 0:
                     okm = True
             run.ob('R06.3', pv, c, 'request follows only the selection of an offered method', okm, slot='method-gate',
                    message='version_reply raised without testing the selected method')
@@ -462,7 +473,12 @@ def r06_7(run):
             return False
         for a in node_asts(n):
             if isinstance(a, ast.Assign) and assign_to(a, 'self._outgoing_data') is not None and not mentions(a.value, 'self._outgoing_data'):
-                return True     # (an assignment that also reads the queue takes its content, it does not discard it)
+                # (an assignment that also reads the queue takes its content, it does not discard it - also when the take is the
+                # statement just before: `pending = self._outgoing_data; self._outgoing_data = []`, the split form of a swap)
+                preds = [p_ for _, p_ in n.pred]
+                if len(preds) == 1 and preds[0].kind == 'stmt' and isinstance(preds[0].ast, ast.Assign) and dotted(preds[0].ast.value) == 'self._outgoing_data':
+                    continue
+                return True
             if isinstance(a, ast.Call) and dotted(a.func) == 'self._outgoing_data.clear':
                 return True
             if isinstance(a, ast.Delete) and any(isinstance(t, ast.Subscript) and dotted(t.value) == 'self._outgoing_data' and isinstance(t.slice, ast.Slice) for t in a.targets):
@@ -515,6 +531,36 @@ def r06_4(run):
     run.ob('R06.4', init, init.node, 'target classified once by _create_ip_address', ok, slot='classify', message='__init__ no longer classifies the target')
 
 
+def r06_8(run):
+    """every hostname of up to 255 octets gets its request: the DOMAINNAME length field is one byte, so 255 is the only length limit
+    there is - a refusal at a smaller length (the 253 of DNS text form, a "sane" 128) drops targets the property covers"""
+    ci = machine(run)
+    units = [u for name, u in ci.methods.items() if name.startswith('_send_') or name == '__init__'] + [run.idx.unit(MOD + '._create_ip_address')]
+    k = 0
+    for u in units:
+        g = cfg_of(u)
+        raises = [n for n in g.real_nodes() if n.kind == 'stmt' and isinstance(n.ast, ast.Raise)]
+        for r in raises:
+            for t, lab in g.guarded_by(r, lambda t_: isinstance(t_, ast.Compare) and len(t_.ops) == 1 and isinstance(t_.left, ast.Call) and dotted(t_.left.func) == 'len'
+                                       and isinstance(const(t_.comparators[0]), int)):
+                op, K = t.ast.ops[0], const(t.ast.comparators[0])
+                # smallest length refused on this edge
+                if lab == 'T' and isinstance(op, ast.Gt):
+                    least = K + 1
+                elif lab == 'T' and isinstance(op, ast.GtE):
+                    least = K
+                elif lab == 'F' and isinstance(op, ast.LtE):
+                    least = K + 1
+                elif lab == 'F' and isinstance(op, ast.Lt):
+                    least = K
+                else:
+                    continue
+                k += 1
+                run.ob('R06.8', u, t.ast, 'no name of 255 octets or fewer is refused for its length', least > 255, slot='length-refusal:%s' % u.name,
+                       message='%s refuses names of %d octets and more (%s): RFC 1928 allows 255, so a legal target gets no request' % (u.short, least, src(t.ast)[:40]))
+    run.ob('R06.8', MOD, None, 'length refusals examined (%d)' % k, True)
+
+
 RULES = [
     ('R06.1', 'constant folding: method selection = 05 01 00, sent on (unconnected, connection)', r06_1),
     ('R06.2', 'struct format x header x address agreement with RFC 1928 for every request type and address family (path enumeration over the family atom)', r06_2),
@@ -522,12 +568,14 @@ RULES = [
     ('R06.5', 'no test narrows the legal port range 0..65535 (representatives evaluated through the comparisons)', r06_5),
     ('R06.6', 'classifier fidelity: family chosen by ipaddress.ip_address(host) alone, host/port carried unchanged', r06_6),
     ('R06.7', 're-entrancy of the output drain: no wholesale reset of the queue after the callback', r06_7),
+    ('R06.8', 'who-may-refuse: no length test refuses a hostname of 255 octets or fewer', r06_8),
     ('R06.4', 'sibling agreement: every packed hostname comes from a strict ASCII encoding and a one-byte length', r06_4),
 ]
 
 from ..selftest import M  # noqa: E402
 F = 'txtorcon/socks.py'
 MUTANTS = [
+    M('dns-text-length-limit', F, "        host = self._addr.host.encode('ascii')\n        self._data_to_send(\n            struct.pack(\n                '!BBBBB{}sH'.format(len(host)),\n                5,                   # version\n                0xF0,", "        host = self._addr.host.encode('ascii')\n        if len(host) > 253:\n            raise ValueError('hostname too long')\n        self._data_to_send(\n            struct.pack(\n                '!BBBBB{}sH'.format(len(host)),\n                5,                   # version\n                0xF0,", ['R06.8']),
     M('drain-join-then-reset', F, "        while len(self._outgoing_data):\n            data = self._outgoing_data.pop(0)\n            callback(data)", "        if self._outgoing_data:\n            callback(b''.join(self._outgoing_data))\n            self._outgoing_data = []", ['R06.7']),
     M('trailing-dot-stripped', F, "        self._addr = _create_ip_address(str(host), port)", "        host = str(host)\n        if host.endswith('.'):\n            host = host[:-1]\n        self._addr = _create_ip_address(host, port)", ['R06.6']),
     M('v4-mapped-rewritten', F, "        a = None\n    if isinstance(a, ipaddress.IPv4Address):", "        a = None\n    if isinstance(a, ipaddress.IPv6Address) and a.ipv4_mapped is not None:\n        a = a.ipv4_mapped\n    if isinstance(a, ipaddress.IPv4Address):", ['R06.6']),
@@ -547,6 +595,8 @@ MUTANTS = [
     M('connect-encode-replace', F, "            host = host.encode('ascii')", "            host = host.encode('ascii', 'replace')", ['R06.4']),
 ]
 TWINS = [
+    M('method-test-negated-chain', F, "            if version == 5 and method in [0x00, 0x02]:\n                self.version_reply(method)\n                # whatever arrived in the same segment behind the\n                # method reply is (the start of) the request reply\n                if self._data:\n                    self.got_data()\n            else:\n                if version != 5:\n                    self.version_error(SocksError(\n                        \"Expected version 5, got {}\".format(version)))\n                else:\n                    self.version_error(SocksError(\n                        \"Wanted method 0 or 2, got {}\".format(method)))", "            if version != 5:\n                self.version_error(SocksError(\n                    \"Expected version 5, got {}\".format(version)))\n            elif method not in (0x00, 0x02):\n                self.version_error(SocksError(\n                    \"Wanted method 0 or 2, got {}\".format(method)))\n            else:\n                self.version_reply(method)\n                if self._data:\n                    self.got_data()"),
+    M('ptr-legs-as-if-else', F, "        is_v6 = isinstance(self._addr, IPv6Address)\n        addr_type = 0x04 if is_v6 else 0x01\n        encoded_host = inet_pton(AF_INET6 if is_v6 else AF_INET, self._addr.host)\n", "        if isinstance(self._addr, IPv6Address):\n            is_v6 = True\n            addr_type = 0x04\n            family = AF_INET6\n        else:\n            is_v6 = False\n            addr_type = 0x01\n            family = AF_INET\n        encoded_host = inet_pton(family, self._addr.host)\n"),
     M('drain-swap-then-call', F, "        while len(self._outgoing_data):\n            data = self._outgoing_data.pop(0)\n            callback(data)", "        while len(self._outgoing_data):\n            pending, self._outgoing_data = self._outgoing_data, []\n            callback(b''.join(pending))"),
     M('host-str-first', F, "        self._addr = _create_ip_address(str(host), port)", "        host = str(host)\n        self._addr = _create_ip_address(host, port)"),
     M('greeting-literal', F, "struct.pack('BBB', 5, 1, 0)", "b'\\x05\\x01\\x00'"),
